@@ -47,6 +47,15 @@ try:
         res["demo_patched_tail"] = o1[-300:]
         rcb, ob = run(["/venv/bin/python", os.path.join(V, "tools/baseline.py"), wt], timeout=1800)
         res["baseline"] = [l for l in ob.splitlines() if l.startswith("stable_pass")][-1:] + [l for l in ob.splitlines() if "MISSING" in l][:5]
+        if rcb != 0:
+            # timing-based tests (longpoll, runnable, oauth) flake when all cores are busy: re-run just the missing ones
+            missing = [l.split("MISSING", 1)[1].strip() for l in ob.splitlines() if "MISSING" in l]
+            ids = [m.replace("cloudsync.tests.", "cloudsync/tests/").replace("::", ".py::", 1) if ".py" not in m else m for m in missing]
+            ids = [i.split("::")[0].replace(".", "/").replace("/py", ".py") + "::" + "::".join(i.split("::")[1:]) for i in ids]
+            rr, orr = run(["/venv/bin/python", "-m", "pytest", "-q", "-p", "no:cacheprovider", "--timeout=900"] + ids, cwd=wt, timeout=1800)
+            res["baseline"].append("re-run of missing tests alone: exit %d: %s" % (rr, orr.strip().splitlines()[-1] if orr.strip() else ""))
+            if rr == 0:
+                rcb = 0
         res["confirmed"] = (rc0 == 0 and rc1 != 0 and rcb == 0)
     caught = []
     for c in checks:
